@@ -347,6 +347,8 @@ class Pair:
         self.cexp = cexp            # b = 2^cexp * a
         self.desc = desc
         self.t = t
+        self.eps = None             # (dist, pre) tolerance exponents overriding EPS_DIST / EPS_PRE (large-offset pairs)
+        self.bigt = None            # log2 of the translation magnitude of a large-offset pair
 
     def label(self):
         m = self.a["m"]
@@ -412,6 +414,35 @@ def gen_pair(r, kind, m, dclass, n, D, quick):
     raise ValueError(kind)
 
 
+# large-offset translations (offset / spread up to 2^16): translation invariance is claimed for these methods; compared in
+# approx mode with a tolerance declared per method and offset = worst deviation measured on the clean tree * 2^10 or
+# more (cancellation grows like (offset/spread)^2 for the kernel formulation, like offset/spread for two-pass PCA);
+# MDS and Isomap see bit-identical distances (integer coordinates) and must return bit-identical results
+BIG_T = {          # method -> {log2 offset: (dist exponent, pre exponent)}
+    # measured on the clean tree over 6 seeds (worst log2 relative deviation): pca -47 (dist) / -51 (pre) at 2^20 and 2^30;
+    # kpca -33 / -30 at 2^20; lltsa -26 (dist) at 2^20; mds, isomap bit-identical
+    "mds": {20: (EPS_DIST, EPS_PRE), 30: (EPS_DIST, EPS_PRE)},
+    "isomap": {20: (EPS_DIST, EPS_PRE), 30: (EPS_DIST, EPS_PRE)},
+    "pca": {20: (30, 30), 30: (30, 30)},
+    "kpca": {20: (22, 20)},
+    "lltsa": {20: (16, 16)},
+}
+
+
+def gen_bigt_pair(r, m, e, n, D):
+    dclass = r.choice(["generic", "generic", "clusters"])
+    X = DATA[dclass](r, n, D)
+    a = gen_call(r, m, X, 0, dclass)
+    a["seed"] = 1 + r.below(1000)
+    b = dict(a)
+    t = [(1 if r.chance(1, 2) else -1) * (2 ** e) + r.range(-999, 999) for _ in range(D)]
+    b["X"] = [tuple(p[c] + t[c] for c in range(D)) for p in X]
+    p = Pair("rigid", a, b, dclass, desc="T2^%d:%s" % (e, "/".join(map(str, t))), t=t)
+    p.bigt = e
+    p.eps = BIG_T[m][e]
+    return p
+
+
 def judge_pairs(ctx, binary, pairs, shrink=True):
     """runs both members of every pair (one process per batch), decides the relation; returns list of verdict dicts"""
     lines = []
@@ -465,6 +496,7 @@ def judge_pairs(ctx, binary, pairs, shrink=True):
                 v["fail"] = ("bits", "the callbacks return bit-identical values for both members but the embeddings differ")
                 # still compared approximately below (the detail then tells how far apart they are)
         # --- embedded distances
+        ed, ep = p.eps if p.eps else (EPS_DIST, EPS_PRE)
         n = len(oa["Y"])
         perm = p.perm if p.perm is not None else list(range(n))
         ga, gb = rel_gap(m, p.a["d"], oa["ev"]), rel_gap(m, p.b["d"], ob["ev"])
@@ -482,20 +514,23 @@ def judge_pairs(ctx, binary, pairs, shrink=True):
                 v["trivial"] = "small-eigengap"
             else:
                 rel_lines.append("rel kind=dist perm=%s c2=%s eps=%d Ya=%s Yb=%s" % (
-                    ",".join(map(str, perm)), c2_text(p.cexp), EPS_DIST, oa["Ytext"], ob["Ytext"]))
+                    ",".join(map(str, perm)), c2_text(p.cexp), ed, oa["Ytext"], ob["Ytext"]))
                 rel_owner.append((i, "dist"))
             # --- matrices handed to the eigensolver (independent of the eigengap)
             if oa["pre"] != "-" and ob["pre"] != "-":
                 if m in FEATURE_SPACE:
                     if p.kind == "perm":
-                        rel_lines.append("rel kind=same eps=%d A=%s B=%s" % (EPS_PRE, oa["pre"], ob["pre"]))
+                        rel_lines.append("rel kind=same eps=%d A=%s B=%s" % (ep, oa["pre"], ob["pre"]))
+                        rel_owner.append((i, "pre"))
+                    elif p.bigt is not None and m == "pca":
+                        rel_lines.append("rel kind=same eps=%d A=%s B=%s" % (ep, oa["pre"], ob["pre"]))
                         rel_owner.append((i, "pre"))
                     elif p.kind == "scale" and m == "pca":
                         rel_lines.append("rel kind=same c2=%s eps=%d A=%s B=%s" % (c2_text(p.cexp), EPS_PRE, oa["pre"], ob["pre"]))
                         rel_owner.append((i, "pre"))
                 elif p.kind in ("perm", "scale") or (p.kind == "rigid" and m in CALLBACK_ONLY):
                     rel_lines.append("rel kind=mat perm=%s c2=%s eps=%d A=%s B=%s" % (
-                        ",".join(map(str, perm)), c2_text(p.cexp), EPS_PRE, oa["pre"], ob["pre"]))
+                        ",".join(map(str, perm)), c2_text(p.cexp), ep, oa["pre"], ob["pre"]))
                     rel_owner.append((i, "pre"))
                     if oa["rhs"] != "-" and ob["rhs"] != "-":
                         rel_lines.append("rel kind=mat perm=%s c2=1 eps=%d A=%s B=%s" % (
@@ -515,13 +550,17 @@ def judge_pairs(ctx, binary, pairs, shrink=True):
                 v["checks"].append(what + "-approx")
                 ctx.stat("cmp-approx:" + what)
                 mm = re.search(r"lg=(-?\d+)", a)
+                if mm and v["pair"].bigt is not None:
+                    key = "%s:%s:2^%d" % (what, v["pair"].a["m"], v["pair"].bigt)
+                    worst = ctx.extra.setdefault("large_offset_translation_worst_log2_deviation", {})
+                    worst[key] = max(worst.get(key, -999), int(mm.group(1)))
                 if mm:
                     ctx.stat("approx-dev-log2:%s:%d" % (what, 10 * (int(mm.group(1)) // 10)))
             elif a.startswith("viol"):
                 if v["fail"] is None or v["fail"][0] == "bits":
                     v["fail"] = (what, "%s differ beyond 2^-%d of their scale (%s)" % (
                         "embedded distances" if what == "dist" else "matrices handed to the eigensolver",
-                        EPS_DIST if what == "dist" else EPS_PRE, a))
+                        (v["pair"].eps or (EPS_DIST, EPS_PRE))[0 if what == "dist" else 1], a))
             else:
                 v["fail"] = ("driver", "driver answered %r" % a)
     return verdicts
@@ -603,7 +642,9 @@ def shrink_pair(ctx, binary, p, symptom):
         for c in (a, b):
             if "k" in c:
                 c["k"] = min(c["k"], len(keep) - 1)
-        return Pair(p.kind, a, b, p.dclass, perm=perm, cexp=p.cexp, desc=p.desc, t=p.t)
+        q = Pair(p.kind, a, b, p.dclass, perm=perm, cexp=p.cexp, desc=p.desc, t=p.t)
+        q.eps, q.bigt = p.eps, p.bigt
+        return q
 
     def failing(keep):
         if len(keep) < 5:
@@ -1124,6 +1165,10 @@ def correspond(ctx):
                     else:
                         dclass = r.choice(["generic", "generic", "lattice", "clusters", "dups"])
                     pairs.append(gen_pair(r.fork(), kind, m, dclass, n, D, quick))
+        # translations far larger than the spread of the data
+        for m in sorted(BIG_T):
+            e = r.choice(sorted(BIG_T[m]))
+            pairs.append(gen_bigt_pair(r.fork(), m, e, r.choice([8, 12, 16, 20, 24, 32]), r.range(2, 4) if m != "lltsa" else 3))
         # connectivity decision must not depend on which sample comes first
         for m in ("isomap", "le", "klle"):
             pairs.append(gen_pair(r.fork(), "perm", m, "clusters", r.choice([12, 16, 24]), 2, quick))
@@ -1156,6 +1201,8 @@ def correspond(ctx):
         "sparse_matrix_from_triplets vs the model.  non-trivial = at least one comparison at distance or pre-matrix "
         "level was decided (not both-exception, not knn-boundary-tie, not relative eigengap < 2^-8); distinct by case text"
         % (sizes,))
+    ctx.extra["large_offset_translation_tolerances"] = {m: {"2^%d" % e: "dist 2^-%d, pre 2^-%d" % t for e, t in d.items()}
+                                                        for m, d in BIG_T.items()}
     ctx.extra["tolerances"] = {"embedded squared distances": "2^-%d relative to the largest" % EPS_DIST,
                                "pre-matrices": "2^-%d relative to the largest entry (exact in exact-mode cases)" % EPS_PRE,
                                "eigengap threshold": "relative 2^-8 at the cuts selecting the returned eigenvectors"}
